@@ -258,6 +258,26 @@ PROPS = {
         "assumptions": COMMON_ASSUME + ["instruction classes come from binutils' tables (trusted)", "classes the dispatchers cannot observe (AES-NI, PCLMULQDQ, SSSE3, BMI1/2, "
                                         "POPCNT, FMA) are reported in the evidence notes, not judged", "indirect calls other than the dispatch pointers do not occur in the library"],
     },
+    "C17": {
+        "title": "FIPS self-tests run exactly once under any interleaving; nobody passes early",
+        "variant": "fips",
+        "ldflags": ["-Wl,--wrap=_aes_self_tests", "-Wl,--wrap=_sha_self_tests", "-Wl,--wrap=_sha1_ctx_mgr_init"],
+        "quick": {"cases": 40000},
+        "thorough": {"cases": 1500000},
+        "technique": "property-based testing of schedules: deterministic instruction-level scheduler (x86 trap flag, logical threads as contexts in one OS thread), "
+                     "rapidcheck-generated and shrinkable schedules, history invariants as oracle",
+        "rule": "FIPS_MODE build. rapidcheck cases: 1..5 logical threads, each making its first call through isal_self_tests() or through a cheap approved entry "
+                "(isal_sha1_ctx_mgr_init) and then a second isal_self_tests(); self-test outcome in {pass, fail}; the wrapped self-test bodies spin 0..40 yield "
+                "points; schedule = either a byte string of (thread, burst length) decisions followed by a fair round-robin tail, or a run-to-yield schedule "
+                "with 0..4 generated preemption points. Every instruction of the real check/claim/run/publish code is single-stepped and the generated schedule "
+                "decides which logical thread executes the next instruction. Oracle (history invariants): the AES and SHA self tests are entered exactly once; no "
+                "thread returns success, and the wrapped approved entry does not start its work, before the self tests have finished and the verdict is published; "
+                "all first and second calls return the same verdict (0 / ISAL_CRYPTO_ERR_SELF_TEST); every thread finishes within the step bound under the fair "
+                "tail. Non-trivial = at some step >=2 threads were inside asm_check_self_tests_status, or a loser reached the spin loop before the publish. "
+                "Distinct = hash of the case JSON.",
+        "assumptions": COMMON_ASSUME + ["sequential consistency: x86-TSO store buffering is not modelled (the protocol's only plain store is the final publish, after "
+                                        "which the publisher reads nothing back)", "real-thread stress is not the deciding engine"],
+    },
 }
 
 # properties not (yet) claimed; kept current as checks are added
